@@ -104,3 +104,20 @@ PROPS['C17'] = dict(
     level_note='Go method sets are modelled by a tag table; the table is checked against the real type assertions in every case.',
     rule=_hist_rule + ' (v3 only, derive-heavy profile)', modelled='Go dynamic types / method sets as a tag table', assumptions=[],
 )
+
+PROPS['C10'] = dict(
+    theorem='C10_printer_is_layout, C10_sprint, C10_swrite, C10_shown_true (Properties/C10.v)',
+    functional=True,
+    level_text='Theorem for all option values (rows/columns incl. <= 0, any missing rune, count margin, leading decimal, trailing LF), all views, digit strings '
+               'and AddRange lists: the streaming printer (first-cell / row-break / column-gap branches, skipRowsFor, gap filling) emits exactly the declarative '
+               'canonical layout; the shown pairs are exactly the requested positions that exist, ascending (from C11 normal form and C07 intervals). '
+               'Differential run of Sprint/Fprint (three versions) and Swrite/Fwrite (v3) against the extracted model over generated layouts, compared as code points.',
+    level_note='fmt %Nd and bufio.WriteRune (invalid rune -> U+FFFD) are modelled (dec/pad_left, fix_rune) and exercised on every case; Print/Write to os.Stdout are '
+               'Fprint/Fwrite on a file and are not run. The decode-back statement (labels + column arithmetic recover positions) is not yet a separate theorem; it is a '
+               'property of the declarative layout.',
+    rule='cases: windows of finite (0,1,5,30,99,100,101,250 digits) and infinite test numbers, 0-4 AddRange calls per Positions value (gaps inside a row, of exactly one '
+         'row, across rows, mid-row starts, far from 0, negative/empty), rows in {-1,0,1,2,3,7,10,11,20,50}, columns incl. R and R+1, count on/off, missing runes ASCII/2-/3-/'
+         '4-byte/invalid, v3 leading decimal x trailing LF, v3 Swrite. Non-trivial: output has several rows, shows digits, has gaps, or is Swrite.',
+    modelled='fmt.Fprintf("%Nd"), bufio.Writer.WriteRune, strings.Builder',
+    assumptions=['Sprint is also compared with Fprint into a strings.Builder (text and byte count) inside the driver'],
+)
